@@ -53,6 +53,19 @@ HornerChain ==
     \A i \in 2..Len(calls) : (calls[i].op = "horner" /\ calls[i - 1].op = "horner") =>
         (handles[calls[i].args[1] + 1] = calls[i - 1].ret /\ calls[i].args[2] = calls[i - 1].args[2])
 
+\* products first, then additions: the shape in which the validity of one fusion depends on another one's
+MulsFirst == \A i \in 1..(Len(calls) - 1) : calls[i].op = "add" => calls[i + 1].op # "mul"
+
+FusionShapedMulsFirst == FusionShaped /\ MulsFirst
+
+\* a product that is read by an addition AND by a Horner step (as accumulator or as p_at_z): the fusion pass must count
+\* every read of the product, whatever operand position it is in
+ReadsRet(cl, k, r) == handles[cl.args[k] + 1] = r
+MulAddHornerShaped ==
+    /\ Len(calls) >= 1 => calls[1].op = "mul"
+    /\ Len(calls) >= 2 => (calls[2].op = "add" /\ (ReadsRet(calls[2], 1, calls[1].ret) \/ ReadsRet(calls[2], 2, calls[1].ret)))
+    /\ Len(calls) >= 3 => (calls[3].op = "horner" /\ (ReadsRet(calls[3], 1, calls[1].ret) \/ ReadsRet(calls[3], 3, calls[1].ret)))
+
 \* Invariants for the guarded (sound) design
 SoundC03 == OpsImplySource
 SoundC02 == stage = "done" => \A env \in Envs : ValuesPreservedAt(env) /\ ViolationDetectedAt(env)
